@@ -152,9 +152,12 @@ def step (_ : Unit) (line : String) : Unit × String :=
               ((Spec.wellFormedCount true o).isSome || !(rp == 0 || (Spec.wellFormedCount true [rp]).isSome)))
           | none => "bad-op")
       | _, _ => "bad-op"
-    | ["J", "sb256", iso, bitsS] =>
-      boolStr (bitsS.length == 256 &&
-        (List.range 256).all fun c => Spec.byteDemands (iso == "1") (fun k => bitsS.toList.getD k '0' == '1') c)
+    | ["J", "sb256", n, bitsS] => match parseHex n with
+      | some n =>
+        let l := bitsS.toList
+        boolStr (bitsS.length == 256 &&
+          (List.range 256).all fun c => Spec.nameDemands (Spec.normName (nm n)) (fun k => l.getD k '0' == '1') c)
+      | none => "bad-op"
     | _ => "bad-op"
   ((), r)
 
